@@ -255,6 +255,9 @@ def discharge_text(item):
                 extra = dict(extra2, small_model=True)
         return dict({"status": "sat", "solver": "z3-5.1.0", "seconds": round(time.time() - t0, 3)}, **extra)
     res = {"status": "unknown", "solver": "z3-5.1.0", "reason": why}
+    if os.environ.get("PYVC_DUMP"):       # debugging aid: keep the undecided query
+        with open(os.path.join(os.environ["PYVC_DUMP"], re.sub(r"[^\w.#]", "_", item["id"]) + ".smt2"), "w") as f:
+            f.write(item["smt2"])
     try:
         txt = re.sub(r"\(\(_ ([A-Za-z_][\w!]*) 0\)", r"(\1", item["smt2"])
         txt = txt.replace("(set-info :status unknown)", "").replace("seq.nth_i", "seq.nth").replace("seq.nth_u", "seq.nth")
